@@ -137,5 +137,6 @@ pub fn run(ctx: &Ctx) -> Result<()> {
 		if finite { match strict_parse(&text) { Some(j) if j == to_j(&v) => {} other => col.violation("not-standard-json", &format!("json.val {}", cps(&text)), &format!("json.val {}", cps(&text)), &format!("strict parser: {:?}", other.is_some())) } }
 		if text.len() < 600 { col.out.line(&format!("json.val {} => ok:{}", cps(&text), cps(&text))); }
 	}
+	crate::formats::run_meta(ctx, &mut col)?;
 	col.finish()
 }
